@@ -480,6 +480,7 @@ func TestVF_C16(t *testing.T) {
 	defer runtime.GOMAXPROCS(runtime.GOMAXPROCS(0))
 
 	sigs := map[string]struct{}{}
+	const caseTimeout = 3 * time.Minute
 	for c := 0; c < n; c++ {
 		if !r.Want(c) {
 			continue
@@ -496,10 +497,18 @@ func TestVF_C16(t *testing.T) {
 		}
 		cs := &vfc16Case{r: r, c: c, hookMix: uint64(r.Seed())<<32 + uint64(c)<<8}
 		cs.desc = map[string]any{"case": c, "goroutines": nG, "gomaxprocs": procs, "readers": nReaders, "idle_timeout": idle.String(), "lazy_download": lazyDownload, "ops_per_goroutine": nOps}
-		// The pool is created with a long timeout so that its own ticker never fires during the case (a
-		// 1ns timeout would make it spin); the timeout used by closeIdleReaders is then set directly.
-		cs.pool = NewReaderPool(log.NewNopLogger(), true, time.Hour, NewReaderPoolMetrics(nil), dl)
-		cs.pool.lazyReaderIdleTimeout = idle
+		// The pool is assembled without NewReaderPool's ticker goroutine (with a 1ns timeout it would spin
+		// on time.After(0)); the sweeper goroutine of this monitor plays the ticker and calls the real
+		// closeIdleReaders.
+		cs.pool = &ReaderPool{
+			logger:                log.NewNopLogger(),
+			metrics:               NewReaderPoolMetrics(nil),
+			lazyReaderEnabled:     true,
+			lazyReaderIdleTimeout: idle,
+			lazyReaders:           make(map[*LazyBinaryReader]struct{}),
+			close:                 make(chan struct{}),
+			lazyDownloadFunc:      dl,
+		}
 		caseDir := filepath.Join(root, fmt.Sprintf("case%d", c))
 		var bkts []*filesystem.Bucket
 		setupOK := true
@@ -537,9 +546,23 @@ func TestVF_C16(t *testing.T) {
 			wg.Add(1)
 			go cs.worker(g, nOps, &wg)
 		}
-		wg.Wait()
-		close(stop)
-		swg.Wait()
+		finished := make(chan struct{})
+		go func() {
+			wg.Wait()
+			close(stop)
+			swg.Wait()
+			close(finished)
+		}()
+		select {
+		case <-finished:
+		case <-time.After(caseTimeout):
+			// Not a verdict about the property (no logical-step criterion for progress): what was
+			// observed so far is written out, the run is inconclusive, the stuck goroutines are abandoned.
+			r.Inconclusive(fmt.Sprintf("case %d did not finish within %s (calls or unloads are stuck); later cases were not run", c, caseTimeout))
+			buf := make([]byte, 1<<20)
+			t.Logf("goroutines of the stuck case:\n%s", buf[:runtime.Stack(buf, true)])
+			return
+		}
 		verifhook.SetDelay(nil)
 
 		// quiescent classification of LabelValues answers that could not be used after the call returned
